@@ -18,20 +18,28 @@
 EXTENDS Naturals, Sequences, FiniteSets
 
 Classes == {"ascii", "unicode", "empty", "emailLower", "emailMixed", "digits", "long", "b64like", "jsonlike", "control",
-            "quotes", "spaces", "dollarInside", "date", "oid", "bindata", "bindataLoose", "percent", "priorCiphertext"}
+            "quotes", "spaces", "dollarInside", "date", "oid", "bindata", "bindataLoose", "percent", "priorCiphertext",
+            "blockAligned", "ipLike"}
+          \* blockAligned: byte length a multiple of the cipher's block size, ending in bytes that padding schemes use as markers;
+          \* ipLike: spelled like a network address (the run also has --redactIPs switched on)
           \* percent: printf verbs in the text; priorCiphertext: the string is itself a ciphertext produced earlier under the same key
 Slots == {"filterField", "inArray", "updateSet", "updatesPipeU", "documents", "match", "exprArray", "searchQuery", "famPipe",
           "origFilter", "cmdFilter", "deletesQ", "lookupSub"}
-KeyRels == {"same", "other"}
+\* what the decrypt command finds at --decryptionKeyFile: the key the log was encrypted under (sameNL: followed by a newline), another
+\* valid key, or no usable key at all (the key-file kinds of KeyFile.tla); decrypt only ever READS that path
+KeyRels == {"same", "sameNL", "other", "absent", "empty", "short", "nonb64", "dir"}
+GoodRels == {"same", "sameNL"}
+NoKeyRels == {"absent", "empty", "short", "nonb64", "dir"}
 Alterations == {"none", "flipFirst", "flipMiddle", "flipLast", "truncate1", "truncateHalf", "extend", "b64char", "b64pad", "empty", "notb64"}
 
 VARIABLES scen,     \* [cls, slot, keyrel, alt]
           stage,    \* "input" | "redacted" | "handed" | "done"
           leaf,     \* what is at the leaf position of the line: the plaintext m, or base64 of a ciphertext value
           value,    \* the string handed to the decrypt command (leaf, possibly altered on the way)
-          outcome   \* "pending" | [ok |-> TRUE, text] | [ok |-> FALSE]
+          outcome,  \* "pending" | [ok |-> TRUE, text] | [ok |-> FALSE]
+          dkfile    \* what is at the decryption key path (starts as scen.keyrel)
 
-vars == <<scen, stage, leaf, value, outcome>>
+vars == <<scen, stage, leaf, value, outcome, dkfile>>
 
 MsgText == "m"   \* the original string (abstract: its class is in scen.cls)
 \* values are records throughout (TLC compares only like with like)
@@ -54,25 +62,28 @@ Alter(s, a) ==
     [] a \in {"b64pad", "notb64"} -> [s EXCEPT !.wellformed = FALSE]
 
 Init == /\ scen \in [cls : Classes, slot : Slots, keyrel : KeyRels, alt : Alterations]
-        /\ stage = "input" /\ leaf = M /\ value = M /\ outcome = Pending
+        /\ stage = "input" /\ leaf = M /\ value = M /\ outcome = Pending /\ dkfile = scen.keyrel
 
 \* redact --encrypt: the leaf is replaced by base64(Enc(key in use, m))
-Redact == /\ stage = "input" /\ leaf' = B64(Enc(K1, M)) /\ stage' = "redacted" /\ UNCHANGED <<scen, value, outcome>>
+Redact == /\ stage = "input" /\ leaf' = B64(Enc(K1, M)) /\ stage' = "redacted" /\ UNCHANGED <<scen, value, outcome, dkfile>>
 \* somebody copies the string out of the log (and may damage it)
-HandOver == /\ stage = "redacted" /\ value' = Alter(leaf, scen.alt) /\ stage' = "handed" /\ UNCHANGED <<scen, leaf, outcome>>
+HandOver == /\ stage = "redacted" /\ value' = Alter(leaf, scen.alt) /\ stage' = "handed" /\ UNCHANGED <<scen, leaf, outcome, dkfile>>
 \* decrypt <value> --decryptionKeyFile <key file>
 DecryptCmd ==
   /\ stage = "handed"
-  /\ LET k == IF scen.keyrel = "same" THEN K1 ELSE K2
+  /\ LET k == IF dkfile \in GoodRels THEN K1 ELSE K2
          d == UnB64(value)
-     IN outcome' = IF ~d.ok THEN Failed ELSE Dec(k, d.bytes)
-  /\ stage' = "done" /\ UNCHANGED <<scen, leaf, value>>
+     IN outcome' = IF dkfile \in NoKeyRels THEN Failed              \* ReadKeyFromFile fails first: nothing is decoded, nothing is created
+                   ELSE IF ~d.ok THEN Failed ELSE Dec(k, d.bytes)
+  /\ stage' = "done" /\ UNCHANGED <<scen, leaf, value, dkfile>>
 
 Next == Redact \/ HandOver \/ DecryptCmd
 Spec == Init /\ [][Next]_vars /\ WF_vars(Next)
 
-RoundTrip == stage = "done" /\ scen.keyrel = "same" /\ scen.alt = "none" => outcome = [ok |-> TRUE, text |-> MsgText]
-NeverWrongPlaintext == stage = "done" /\ (scen.keyrel # "same" \/ scen.alt # "none") => outcome = Failed
+RoundTrip == stage = "done" /\ scen.keyrel \in GoodRels /\ scen.alt = "none" => outcome = [ok |-> TRUE, text |-> MsgText]
+NeverWrongPlaintext == stage = "done" /\ (scen.keyrel \notin GoodRels \/ scen.alt # "none") => outcome = Failed
+\* the decrypt command never creates, repairs or rewrites a key file
+DecryptOnlyReads == dkfile = scen.keyrel
 NoPlaintextInOutput == stage \in {"redacted", "handed", "done"} => leaf # M
 Finishes == <>(stage = "done")
 =============================================================================
